@@ -434,6 +434,9 @@ where
 {
     const IS_BFV: bool;
     fn build_filter(cfg: &Cfg, n: usize, keys: K::L, bits: usize) -> anyhow::Result<VFilter<W, VFunc<K::T, W, Self, S, E>>>;
+    fn filter_extra(_cx: &mut Ctx, _f: &VFilter<W, VFunc<K::T, W, Self, S, E>>, _keys: &[K::Owned], _bits: usize) -> R {
+        Ok(())
+    }
 }
 
 macro_rules! impl_builds {
@@ -473,6 +476,18 @@ macro_rules! impl_builds {
             const IS_BFV: bool = true;
             fn build_filter(cfg: &Cfg, n: usize, keys: K::L, bits: usize) -> anyhow::Result<VFilter<$w, VFunc<K::T, $w, Self, $s, $e>>> {
                 configure!(VBuilder::<$w, BitFieldVec<$w>, $s, $e>::default(), cfg, n).try_build_filter(keys, bits, dsi_progress_logger::no_logging![])
+            }
+            fn filter_extra(cx: &mut Ctx, f: &VFilter<$w, VFunc<K::T, $w, Self, $s, $e>>, keys: &[K::Owned], bits: usize) -> R {
+                let wb = <$w>::BITS as usize;
+                if !(bits <= wb - 6 || bits == wb - 4 || bits == wb) {
+                    return Ok(());
+                }
+                cx.label("contains_unaligned");
+                for i in 0..keys.len() {
+                    let g = cx.must("contains_unaligned", || f.contains_unaligned(K::as_t(&keys[i])))?;
+                    cx.check(g, "contains_unaligned", || format!("contains_unaligned false for inserted key #{i} (b={bits}, word {})", stringify!($w)))?;
+                }
+                Ok(())
             }
         }
     )*};
